@@ -280,7 +280,7 @@ fn mask(dst: &[u8], iv: &[u8], header: &[u8], body: &[u8]) -> Vec<u8> {
     d
 }
 
-pub fn gen_case(rng: &mut Rng, _tier: &str, stats: &mut Stats) -> Vec<String> {
+pub fn gen_case(rng: &mut Rng, _tier: &str, _profile: &str, stats: &mut Stats) -> Vec<String> {
     let mut ops = Vec::new();
     let dst = rng.bytes(32);
     // 1. structured encodes at boundary sizes
